@@ -256,6 +256,11 @@ class PEval(object):
             return self.ev(n.body if t else n.orelse, env, depth)
         if isinstance(n, (ast.GeneratorExp, ast.ListComp)):
             return self.comp(n, env, depth)
+        if isinstance(n, ast.Call) and isinstance(n.func, ast.Name) and n.func.id == 'getattr' and len(n.args) == 3 and not n.keywords \
+                and isinstance(n.args[1], ast.Constant) and isinstance(n.args[2], ast.Constant) and n.func.id not in env:
+            # an optional attribute read with a constant default: the attribute exists only on objects built with an opt-in feature; every object an
+            # existing caller builds answers with the default (new optional features are judged at their defaults)
+            return n.args[2].value
         if isinstance(n, ast.Call):
             f = self.ev(n.func, env, depth)
             kwargs = {}
